@@ -23,7 +23,7 @@ var (
 
 type c14 struct {
 	*loop
-	chain int
+	chain        int
 	kindsAtBound map[lKind]bool
 }
 
